@@ -56,8 +56,8 @@ plan("C10", "fault_enumeration",
      {"restart-checked": 4}, "at least one restart from a crash image was compared with what the new incarnation reports",
      {"quick": {"restart-checked": 300, "restart-with-snapshot": 30}, "thorough": {"restart-checked": 2000}})
 plan("C12", "exploration",
-     [sim("lagging", 25), sim("random", 20), sim("churn", 15)],
-     [sim("lagging", 170), sim("random", 170), sim("churn", 130), sim("crashpoints", 70), sim("random", 60, race=True)],
+     [sim("lagging", 22), sim("random", 16), sim("churn", 12), sim("longstale", 6), sim("storefail", 6)],
+     [sim("lagging", 170), sim("random", 170), sim("churn", 130), sim("crashpoints", 70), sim("longstale", 60), sim("storefail", 80), sim("restore", 60), sim("random", 60, race=True)],
      {"tail-one-leader": 1}, "the quiet tail ended with the bounded-progress readings taken",
      {"quick": {"tail-member-checked": 60}, "thorough": {"tail-member-checked": 500}})
 plan("C13", "exploration",
